@@ -15,6 +15,7 @@
 
 #include <fmt/core.h>
 
+#include <exception>
 #include <string>
 #include <string_view>
 #include <optional>
@@ -171,6 +172,12 @@ int main(int argc, char** argv)
     }
     catch(const sbe_error& e)
     {
+        reporter.error(e.what());
+        return 1;
+    }
+    catch(const std::exception& e)
+    {
+        // e.g. a directory given as the schema file, `std::bad_alloc`
         reporter.error(e.what());
         return 1;
     }
